@@ -236,6 +236,9 @@ func cmdSweep(args []string) int {
 				continue
 			}
 		}
+		if con := e.contractFor(fn); con != nil && con.Trusted {
+			continue
+		}
 		keys = append(keys, k)
 	}
 	sort.Strings(keys)
